@@ -445,6 +445,8 @@ val fr_mod : fr -> fr -> fr res
 
 val fr_divexact : fr -> fr -> fr res
 
+val fr_divexact_fixed : fr -> fr -> fr res
+
 val fr_round_to_int : fr -> fr res
 
 val hash_word : z -> z -> z
